@@ -131,8 +131,17 @@ pub fn spawn_stdin_listener(
     critical_window: CriticalWindow,
 ) {
     std::thread::spawn(move || {
-        let reader = BufReader::new(std::io::stdin());
-        for line in reader.lines().map_while(Result::ok) {
+        let mut reader = BufReader::new(std::io::stdin());
+        let mut buf = Vec::new();
+        loop {
+            buf.clear();
+            match reader.read_until(b'\n', &mut buf) {
+                Ok(0) | Err(_) => break, // EOF / stdin gone
+                Ok(_) => {}
+            }
+            // A line that is not valid UTF-8 is just an unparsable request (it gets the
+            // JSON-RPC parse error); it must not end the control loop for good.
+            let line = String::from_utf8_lossy(&buf);
             if let Some(resp) = dispatch(&config, Some(&stats), Some(&critical_window), line.trim())
             {
                 // Responses on stdin just go to stdout so scripts can pipe.
